@@ -180,4 +180,16 @@ example :
      | _ => (none, none, false, 0)) = (some ⟨.str (b "v"), some 5000⟩, none, true, 1000) := by
   decide +kernel
 
+/-! ### the automatic trigger -/
+
+/-- **auto_trigger_partial**: when a tick observes the change counter exactly at the threshold, a snapshot starts -/
+theorem auto_trigger_partial (thr : Nat) : Sugar.Persist.autoFires thr thr = true := by simp [Sugar.Persist.autoFires]
+
+/-- **the full statement fails**: once the counter has passed the threshold between two ticks no tick ever
+    fires again (the test is equality) — for every overshoot -/
+theorem auto_trigger_overshoot_never_fires (thr n : Nat) (h : n > thr) : Sugar.Persist.autoFires n thr = false := by
+  simp [Sugar.Persist.autoFires]; omega
+
+theorem auto_trigger_overshoot_witness : Sugar.Persist.autoFires 4 3 = false := by decide
+
 end Sugar.Props.C03
